@@ -114,7 +114,8 @@ var c08Programs = []string{
 	"print (typeof {a:1 b:\"s\"}) (typeof {a:[] b:{}}) (typeof [{a:1} {b:\"x\"} {}])\n",
 	"a:any\na = {p:1 q:[2] r:{s:3}}\nb := a.({}any)\nfor k := range b\n    print k b[k] (typeof b[k])\nend\n",
 	// every way a map value is duplicated keeps its insertion order: repetition, concatenation, slicing, assignment, any-wrapping, arguments, return values
-	"row := [{x:0 y:1 c:\"r\"}] * 2\nprint row\nrow[0].z = 5\nprint row (row + [{q:1 p:2}]) row[0:1]\n",
+	"row := [{x:0 y:1 c:2}] * 2\nprint row\nrow[0].z = 5\nprint row (row + [{q:1 p:2}]) row[0:1]\n",
+	"cell := {x:0 y:0 color:\"red\" size:2}\nrow := [cell] * 3\nrow[1].x = 5\nprint row\nfor key := range row[2]\n    print key row[2][key]\nend\n",
 	"func id:{}num m:{}num\n    return m\nend\nm := {c:3 a:1 b:2}\nn := id m\nx:any\nx = m\ny := [m m]\nz := {k:m}\nprint n x y z x.({}num)\nfor k := range (id m)\n    print k\nend\n",
 }
 
